@@ -109,6 +109,9 @@ struct V(i64);
 struct TinyAdapter {
     log: Arc<Mutex<Vec<u8>>>,
     tag: u8,
+    /// rotates the `name` property: executions running at the same time on different threads see
+    /// different datasets, hence different tag values in flight for the same query
+    salt: usize,
 }
 
 impl TinyAdapter {
@@ -142,11 +145,12 @@ impl Adapter<'static> for TinyAdapter {
     ) -> ContextOutcomeIterator<'static, X, FieldValue> {
         self.checkpoint();
         let p = property_name.clone();
+        let salt = self.salt;
         Box::new(contexts.map(move |c| {
             let v = match c.active_vertex::<V>() {
                 None => FieldValue::Null,
                 Some(v) => match p.as_ref() {
-                    "name" => FieldValue::String(name_of(v.0).into()),
+                    "name" => FieldValue::String(name_of(v.0 + salt as i64).into()),
                     "value" => FieldValue::Int64(v.0),
                     "__typename" => FieldValue::String("N".into()),
                     _ => unreachable!(),
@@ -204,7 +208,11 @@ fn execute(q: Arc<IndexedQuery>, qi: usize, log: &Arc<Mutex<Vec<u8>>>, tag: u8) 
 }
 
 fn execute_alt(q: Arc<IndexedQuery>, qi: usize, alt: usize, log: &Arc<Mutex<Vec<u8>>>, tag: u8) -> String {
-    let adapter = Arc::new(TinyAdapter { log: log.clone(), tag });
+    execute_salted(q, qi, alt, 0, log, tag)
+}
+
+fn execute_salted(q: Arc<IndexedQuery>, qi: usize, alt: usize, salt: usize, log: &Arc<Mutex<Vec<u8>>>, tag: u8) -> String {
+    let adapter = Arc::new(TinyAdapter { log: log.clone(), tag, salt });
     let rows: Vec<_> = interpret_ir(adapter, q, Arc::new(args_for_alt(qi, alt))).unwrap().collect();
     format!("{rows:?}")
 }
@@ -218,8 +226,8 @@ fn compile_and_run_cold(qi: usize, which_schema: usize, log: &Arc<Mutex<Vec<u8>>
 }
 
 /// Hot variant: the main thread parses the schema and compiles every query once; then 3 or 4
-/// threads, released together, each execute all shared compiled queries once, in the same
-/// rotation (so that the same compiled query - and the same filter code with different tag /
+/// threads, released together, first execute the rotation's first query three times (the
+/// variant's focus query), then all shared compiled queries once, in the same rotation (so that the same compiled query - and the same filter code with different tag /
 /// argument values - is running on several threads at once for most of the interpreted time),
 /// odd threads with the second argument set. Oracle: every execution equals the sequential
 /// execution with the same arguments.
@@ -239,25 +247,33 @@ fn hot(variant: usize, log: &Arc<Mutex<Vec<u8>>>) -> i32 {
             b.wait();
             let mut out = vec![];
             let alt = t % 2;
+            // focus: the first query of the rotation is executed three more times by every
+            // thread right after the barrier, alternating argument sets, so that for a good
+            // part of the run all threads are inside the same query's code at the same time
+            let (fqi, fq) = &shared[0];
+            for rep in 0..3 {
+                let a = (t + rep) % 2;
+                out.push((*fqi, a, t + rep, execute_salted(fq.clone(), *fqi, a, t + rep, &log, b'0' + t as u8)));
+            }
             for (qi, q) in &shared {
-                out.push((*qi, alt, execute_alt(q.clone(), *qi, alt, &log, b'0' + t as u8)));
+                out.push((*qi, alt, t, execute_salted(q.clone(), *qi, alt, t, &log, b'0' + t as u8)));
             }
             out
         }));
     }
-    let results: Vec<Vec<(usize, usize, String)>> = hs.into_iter().map(|h| h.join().unwrap()).collect();
+    let results: Vec<Vec<(usize, usize, usize, String)>> = hs.into_iter().map(|h| h.join().unwrap()).collect();
     let seq_log = Arc::new(Mutex::new(Vec::<u8>::new()));
-    let mut expected: BTreeMap<(usize, usize), String> = BTreeMap::new();
-    for alt in 0..2 {
-        for (qi, q) in &shared {
-            expected.insert((*qi, alt), execute_alt(q.clone(), *qi, alt, &seq_log, b'.'));
-        }
-    }
+    let mut expected: BTreeMap<(usize, usize, usize), String> = BTreeMap::new();
     let mut ok = true;
     for (t, rs) in results.iter().enumerate() {
-        for (qi, alt, r) in rs {
-            if &expected[&(*qi, *alt)] != r {
-                println!("MISMATCH hot thread {t} query {qi} args {alt}: concurrent {r} sequential {}", expected[&(*qi, *alt)]);
+        for (qi, alt, salt, r) in rs {
+            let key = (*qi, *alt, *salt);
+            if !expected.contains_key(&key) {
+                let q = &shared.iter().find(|x| x.0 == *qi).unwrap().1;
+                expected.insert(key, execute_salted(q.clone(), *qi, *alt, *salt, &seq_log, b'.'));
+            }
+            if &expected[&key] != r {
+                println!("MISMATCH hot thread {t} query {qi} args {alt} dataset {salt}: concurrent {r} sequential {}", expected[&key]);
                 ok = false;
             }
         }
